@@ -3,13 +3,7 @@
 // property-level meaning of opcodes is written down; unit c02_arms proves that each machine arm computes
 // `generic_sem` / `fused_sem` of its opcode, units c10_fused / c11_* prove that the compiler emits an opcode
 // whose table entry is the source operator's meaning.
-#[derive(Copy, Clone, PartialEq, Eq, Structural)]
-pub enum OpCode {
-    Const, Pop, True, False, Add, Subtract, Divide, Multiply, Gt, Gte, Lt, Lte, Eq, Neq, And, Or, Not, Modulo, Negate,
-    Jump, JumpIfFalse, Null, Return, ReturnValue, Call, CallBuiltin, GetLocal, SetLocal, GetGlobal, SetGlobal,
-    GtLocalConst, GteLocalConst, LtLocalConst, LteLocalConst, EqLocalConst, NeqLocalConst, AddLocalConst,
-    SubtractLocalConst, MultiplyLocalConst, DivideLocalConst, ModuloLocalConst, Array, IndexGet, IndexSet, Halt,
-}
+//@TYPE file=compiler.rs name=OpCode attrs="#[derive(Copy, Clone, PartialEq, Eq, Structural)]"
 /// the byte an opcode is encoded as. PROVED-BY: O02.op c02_opcode_roundtrip (`as u8` / OpCode::from are inverse,
 /// hence injective) - the concrete numbers never matter because compiler and machine share the enum.
 pub uninterp spec fn opcode_byte(op: OpCode) -> u8;
